@@ -131,9 +131,10 @@ CHECKS = {
             "Project of 8 files (plain, library, importer, built-and-imported, importer of a built file, static type error, runtime failure, "
             "one library under two path spellings). E2: BFS with events build(f); a transition replays the history in a fresh Environment "
             "and applies one event; states are deduplicated on (val_cache keys, shape_cache keys, out_lock, collector); on every transition "
-            "the result (success, bound values or error, own artifact bytes) must equal the result in the initial state. On the current tree "
-            "the search closes: all 30 reachable states and 248 transitions are covered (bound: depth 4, thorough 6). E3: every ordered "
-            "sequence of 1..2 and a third of the length-3 sequences (thorough: all of length <= 4) in one `ucg build` invocation, run twice "
+            "the result (success, bound values or error, own artifact bytes) must equal the result in the initial state. Bound: depth 4 "
+            "(thorough 6); with the first 13 files the search closed (30 states), with the 19 of the sixth round it does not at depth 4 "
+            "(e2_closed / e2_frontier_left in the evidence say what was left). E3: every ordered "
+            "sequence of 1..2 and a sixth of the length-3 sequences (thorough: all of length <= 4) in one `ucg build` invocation, run twice "
             "in the same directory, plus build -r, compared per file with the alone baseline, and the exit status.",
             "op_cache is left out of the state key: files do not change during a run, so states differing only there have the same futures. "
             "Per-file success in a batch is read from the error lines on stderr.",
@@ -241,25 +242,25 @@ CHECKS = {
 # Additions made after the first version of a check (mostly after a seeded change was missed); appended to the level text.
 ADDED = {
     "C02": "Added later: chains in which one operand of a dot is an integer index and another operand is a float literal.",
-    "C13": "Added later: -r over nested directories; files sharing an import that cannot be loaded; assertion kinds inside a module instantiated from a function body / a map callback; an opaque identity so that the static checker cannot see through the hidden kinds. One invocation with 0..3, 255, 256, 257, 512 failing inputs; the exit status judged as the property words it (non-zero).",
-    "C05": "Added later: Literals the printer must re-escape or re-scale (an infinite float, non-ASCII text next to every escape); comments after the last statement; the check refuses to start if a hand-written form does not parse. Several files in one invocation, a flat directory and -r over nested directories as further routes of `ucg fmt`. Commented files in three orders on the several-files / directory / -r routes.",
-    "C01": "Added later: negative / i64::MIN / negative-float leaves; the S1 / S2 / S3-pair programs once more in non-strict mode. Five templates with backslashes. Callable values compared (168 programs).",
+    "C13": "Added later: -r over nested directories; files sharing an import that cannot be loaded; assertion kinds inside a module instantiated from a function body / a map callback; an opaque identity so that the static checker cannot see through the hidden kinds. One invocation with 0..3, 255, 256, 257, 512 failing inputs; the exit status judged as the property words it (non-zero). Sixth round: the log oracle also covers files whose build stops at run time after some assertions.",
+    "C05": "Added later: Literals the printer must re-escape or re-scale (an infinite float, non-ASCII text next to every escape); comments after the last statement; the check refuses to start if a hand-written form does not parse. Several files in one invocation, a flat directory and -r over nested directories as further routes of `ucg fmt`. Commented files in three orders on the several-files / directory / -r routes. Sixth round: two statements x a comment before / after each on its line, at the top level and in a module body, with the fixed-point clause applied to the output (32 texts; one known finding).",
+    "C01": "Added later: negative / i64::MIN / negative-float leaves; the S1 / S2 / S3-pair programs once more in non-strict mode. Five templates with backslashes. Callable values compared (168 programs). Sixth round: closures made by one factory in five ways x called in seven ways (35 programs).",
     "C03": "Added later: the artifact file as third observation point (scalars in every position, the format-significant strings as value and key, short chains, mixed / multi-document lists through the real `ucg build` of `out <fmt> v;` into a directory holding a longer earlier artifact; the file is decoded). Values no data format can represent (a function, a module; top level and every container position) must be refused by json / yaml / yamlmulti / toml through converter, `convert` and `ucg build`. Strings ending in line breaks in every position of streams of two and three yamlmulti documents.",
     "C04": "Added later: 35 flat constructs grown to 4 KiB (also through the real `ucg build` / `ucg fmt` with their default stack); C05's layout family (every canonical statement form with each separator incl. four comment placements at every gap). Token positions inside statements that define or mention a self-instantiating module are not mutated (excluded by the property). 8..128 function / module values compared with each other; seven constraints that mention themselves unguarded x 5 values.",
     "C06": "Added later: each literal value again where the checker has no static shape for it (opaque identity, element of a mixed list, field of a function argument); exemplars that do not mention the values' first field; five more spellings (alias of a named constraint, an alternation split over two named constraints either way, the value first passing another constrained binding under two constraints). A recursive-constraint family (6 declarations x 4 spellings x 14 values); NULL, empty list / tuple for every constraint; list constraints with the non-conforming element first / middle / last. Per constraint one conforming and one non-conforming value through the exit status of the real `ucg build` (alone, after and before a good file). A select result first passing a constrained binding; callable values; NULL alternatives.",
-    "C07": "Added later: include / import forms with data and decoy files (differential only); a function grid (43 bodies x 13 arguments, also called at two types), a nested-call grid (same / different parameter names), a producer x consumer grid (13 indirect producers x 6 value types x 24 consumers), a select-arm grid (functions, tuples and lists that are alike but not the same), a callback-name grid; a non-strict pass (--no-strict on both sides) over the documented forms, the grids, S1 and S2. A function-result-use grid, a copy-override grid, a callee-name grid, raw forms over std/ imports next to a same-named directory. A field-selection grid (bare / quoted names, 1..3 fields, four kinds of base), a nested-module grid, closures that leave a function, nine reported forms. Inner closure parameter of the same name with another type; the copy as one arm of a select; five more reported forms.",
-    "C08": "Added later: every list-valued flag of 1..3 (thorough 4) items over {str, int, float, bool, NULL, list, tuple} in every order, alone and as a tuple in exec args. A constraint value as one more kind of field.",
+    "C07": "Added later: include / import forms with data and decoy files (differential only); a function grid (43 bodies x 13 arguments, also called at two types), a nested-call grid (same / different parameter names), a producer x consumer grid (13 indirect producers x 6 value types x 24 consumers), a select-arm grid (functions, tuples and lists that are alike but not the same), a callback-name grid; a non-strict pass (--no-strict on both sides) over the documented forms, the grids, S1 and S2. A function-result-use grid, a copy-override grid, a callee-name grid, raw forms over std/ imports next to a same-named directory. A field-selection grid (bare / quoted names, 1..3 fields, four kinds of base), a nested-module grid, closures that leave a function, nine reported forms. Inner closure parameter of the same name with another type; the copy as one arm of a select; five more reported forms. Sixth round: one library reached twice under every pair of 5 spellings and through files in two directories (64 + 27 files); every data-file form is built in an environment of its own.",
+    "C08": "Added later: every list-valued flag of 1..3 (thorough 4) items over {str, int, float, bool, NULL, list, tuple} in every order, alone and as a tuple in exec args. A constraint value as one more kind of field. Sixth round: exec args as every sequence of 1..4 (thorough 5) items over a word and three flag tuples.",
     "C09": "Added later: decoy projects main -> B -> C (B outside main's directory) in which the path B uses for C also names a file of another type against main's directory, the project root and the working directory (6 layouts x let/inline x let/inline x import/include). 16 more positions (constraint of a let, format @{} expression, filter / reduce target, bare statement, out expression, escaped spelling); package-style projects reached through two routes; a directory named std next to the built file. Paths that begin with the letters std without naming an embedded library; an include named like an embedded library; constraint range-end positions. A project file with an embedded library's name reached through three relative spellings. Cycle graphs with the import evaluated by a child VM (format expression, function / module body, map callback).",
-    "C10": "Added later: constrained let and both constraint-statement forms among the rebinding binders (49 ordered pairs x 3 placements). The rebinding pairs and reserved words in non-strict mode; one name twice in a parameter list.",
-    "C11": "Added later: every vocabulary token at the start / end of the text next to white space or a comment that is not followed by a line break.",
-    "C12": "Added later: every order of the fields of a full element, of ten valid / invalid field sets (3 depths) and of the document's own fields; the XML-significant strings as namespace URI (default, prefixed, on a child). Characters XML 1.0 cannot carry (text, attribute, names, namespace uri); the encoding field (names of encodings, a value with a quote); a prefix re-bound and bound back three levels deep. An empty / blank encoding; unrepresentable characters in default, prefixed and child namespaces.",
-    "C14": "Added later: five file-name stems for the artifact-name clause; 0 / 1 / 2 out statements with the file named on the command line in five other ways (./x, sub/../x, ../x from a sub-directory, absolute, .//x); recursive listing. Two inputs in one invocation (8 converters x {convertible, unconvertible}^2).",
-    "C15": "Added later: the same file included twice in one build (4 documents x every ordered pair of 7 include types x 3 layouts, triples over 4 types); integers beyond i64 (judged for json; beyond the decoders' agreement for yaml / toml and left unjudged there); substitution bytes 0xFF / 0x80 and non-ASCII documents in the corrupted pool. Floats that need a correctly rounding reader; programs that use the included value (select, index, add, compare, map); a quoted `<<` key holding no mapping. Byte order marks for b64 / b64urlsafe / str.",
-    "C16": "Added later: a file that fails at run time after importing a file with its own out, and one that fails after its own out (10 files). A checker-only failure, a file reaching it through an inline import, a file handing the shared library to a typed parameter (13 files).",
+    "C10": "Added later: constrained let and both constraint-statement forms among the rebinding binders (49 ordered pairs x 3 placements). The rebinding pairs and reserved words in non-strict mode; one name twice in a parameter list. Sixth round: the closure-factory programs of C01 (35), cut at every statement boundary.",
+    "C11": "Added later: every vocabulary token at the start / end of the text next to white space or a comment that is not followed by a line break. Sixth round: comments that end in CR LF among the pair and layout separators.",
+    "C12": "Added later: every order of the fields of a full element, of ten valid / invalid field sets (3 depths) and of the document's own fields; the XML-significant strings as namespace URI (default, prefixed, on a child). Characters XML 1.0 cannot carry (text, attribute, names, namespace uri); the encoding field (names of encodings, a value with a quote); a prefix re-bound and bound back three levels deep. An empty / blank encoding; unrepresentable characters in default, prefixed and child namespaces. Sixth round: 2 and 3 sibling elements x 5 namespace forms x 4 forms of the children field under 3 parents (4 200 documents); attributes spelled xmlns / xmlns:p beside an ns field (well-formedness only).",
+    "C14": "Added later: five file-name stems for the artifact-name clause; 0 / 1 / 2 out statements with the file named on the command line in five other ways (./x, sub/../x, ../x from a sub-directory, absolute, .//x); recursive listing. Two inputs in one invocation (8 converters x {convertible, unconvertible}^2). Sixth round: 15 values whose last item / field / document / node is the unconvertible one.",
+    "C15": "Added later: the same file included twice in one build (4 documents x every ordered pair of 7 include types x 3 layouts, triples over 4 types); integers beyond i64 (judged for json; beyond the decoders' agreement for yaml / toml and left unjudged there); substitution bytes 0xFF / 0x80 and non-ASCII documents in the corrupted pool. Floats that need a correctly rounding reader; programs that use the included value (select, index, add, compare, map); a quoted `<<` key holding no mapping. Byte order marks for b64 / b64urlsafe / str. Sixth round: every mapping over the keys a, b whose values are a number, such a mapping, or a list holding one, two levels deep (104 documents).",
+    "C16": "Added later: a file that fails at run time after importing a file with its own out, and one that fails after its own out (10 files). A checker-only failure, a file reaching it through an inline import, a file handing the shared library to a typed parameter (13 files). Sixth round: a file the checker refuses in a statement that is not a let and a let-importer of it, xml and yamlmulti conversions that fail late and that succeed (19 files; the search no longer closes at depth 4, the evidence says what is left on the frontier); every sequence of <= 2 files once more with each file named ./f.",
     "C17": "Added later: 11 ways of producing the offending value (name, calls, field, index, select, copied field, format, concatenation, reduce) x 13 consumers that fault on it (operands of + and &&, cast, not, call / copy of a non-function / non-tuple, range end, select, map target, wrongly typed call argument and module parameter); thorough: every nesting position once more with the fault one construct deeper (9 expression-level positions). Faults inside functions called back by map / filter / reduce over lists, tuples and strings; three format-expression (@{}) positions; module results and a module out-expression as producers / positions. What the real `ucg build` prints for a sample; unterminated strings; values that do not fit a named constraint / let-bound exemplar. Callbacks defined earlier as producers; statically found faults inside a file imported by a let (1-2 imports deep); module out constraints.",
     "C18": "Added later: a set and an unset name read from 12 further places (function / module body, callbacks, tuple field, select arm, format argument, imported files incl. functions / modules defined there and a file imported by an imported file) x bare/quoted x strict/--no-strict; every other binding construct tried with `env`. 20 places in all (tuple / string callbacks, nested functions, a module instantiated in a callback); two reads in one file in every order; a variable whose value is not UTF-8 beside the ones read. The recursive directory walk (depth 0..2); env copied / handed on / stored after some fields were read. The smallest environments (HOME and at most one short variable beside a short secret).",
-    "C19": "Added later: parse_int over every digit-led string of length <= 3 over {1, 0, 9, a, -, blank, three non-ASCII decimal digits, e-acute}. List shapes with the non-conforming element at every position; module-style helpers inside a tuple copy using self; parse_int with nothing to parse; the partial flag inside lists. Long digit runs for parse_int; helpers on tuples that come out of a copy; 15 s watchdog per file and a hang cap.",
-    "C20": "Added later: 12 import triangles with permuted names on disk; a decoy first content change in didChange; every document of <= 3 tokens over a 10-token (thorough 14) vocabulary, bare and after a line of definitions, swept with hover / definition / completion at every position and semanticTokens. Positions at 2^32-1, a string spanning lines, a field chain through an import, a large document on disk, re-sent didOpen after didClose, unsaved siblings; in-session sweeps after every message of the <= 2-message sessions. Eight triangles over sub-directories with ../ imports. A 30-deep list and a 10-deep mixed nesting as document texts.",
+    "C19": "Added later: parse_int over every digit-led string of length <= 3 over {1, 0, 9, a, -, blank, three non-ASCII decimal digits, e-acute}. List shapes with the non-conforming element at every position; module-style helpers inside a tuple copy using self; parse_int with nothing to parse; the partial flag inside lists. Long digit runs for parse_int; helpers on tuples that come out of a copy; 15 s watchdog per file and a hang cap. Sixth round: 15 characters of every UTF-8 width and low-byte class, alone, doubled and between ASCII letters, through every string helper.",
+    "C20": "Added later: 12 import triangles with permuted names on disk; a decoy first content change in didChange; every document of <= 3 tokens over a 10-token (thorough 14) vocabulary, bare and after a line of definitions, swept with hover / definition / completion at every position and semanticTokens. Positions at 2^32-1, a string spanning lines, a field chain through an import, a large document on disk, re-sent didOpen after didClose, unsaved siblings; in-session sweeps after every message of the <= 2-message sessions. Eight triangles over sub-directories with ../ imports. A 30-deep list and a 10-deep mixed nesting as document texts. Sixth round: a document that is not on disk opened and closed before, after and around a document that imports it.",
 }
 
 CLAIMED = ["C01", "C02", "C03", "C04", "C05", "C06", "C07", "C08", "C09", "C10", "C11", "C12", "C13", "C14", "C15", "C16", "C17", "C18", "C19", "C20"]
